@@ -1130,12 +1130,26 @@ def c06(res, tier, seed, deep):
     pm1 = pm1 if (tier == "thorough" or deep) else rnd.sample(pm1, min(len(pm1), 30))
     mates = [(1, 1, f) for f in pm1] + mates
     res.tags["premate_positions"] = len(pm1)
+    # mates in FIVE plies (corpus/mate5_positions.txt, few-men endings): the mating tree is deep enough for interior nodes to be
+    # re-reached with all their children answered from the table
+    try:
+        m5h = [l.strip().split(" ", 2) for l in open(os.path.join(VERIF, "corpus", "mate5_positions.txt")) if l.strip()]
+        m5h = [(int(a_), int(b_), f_) for a_, b_, f_ in m5h]
+    except OSError:
+        m5h = []
+    m5h = m5h if (tier == "thorough" or deep) else rnd.sample(m5h, min(len(m5h), 4))
+    mates = m5h + mates
+    res.tags["mate_in_five_positions"] = len(m5h)
     res.tags["underpromotion_mates"] = len(up)
     reqs, meta = [], []
+    # (the move-ordering jitter decides which lines are answered from the table: whether a shortcut in the search misfires on a
+    # given mate depends on the seed, so a changed searcher is met with several seeds per position and depth)
+    nseeds = 3 if (tier == "thorough" or deep) else 1
     for d, keep, f in mates:
         for dd in (d, d + 1, d + 2):
-            reqs.append(f"search {rnd.getrandbits(32)} {dd} 1 - 2 64 0 {f}")
-            meta.append((d, f))
+            for _ in range(nseeds):
+                reqs.append(f"search {rnd.getrandbits(32)} {dd} 1 - 2 64 0 {f}")
+                meta.append((d, f))
     impl = exact_searches(res, reqs)
     items = [(r, f, o, True) for r, (d, f), o in zip(reqs, meta, impl)]
     # several real workers
